@@ -239,15 +239,14 @@ func (s *SerialDB) tryWriteInDbAccessChan(req serialQueryer) error {
 
 // putBatch writes the Batch data into the database
 func (s *SerialDB) putBatch() error {
+	// the pending batch stays readable (and no other flush can overtake this one) until LevelDB has it
 	s.mutBatch.Lock()
+	defer s.mutBatch.Unlock()
+
 	dbBatch, ok := s.batch.(*batch)
 	if !ok {
-		s.mutBatch.Unlock()
 		return common.ErrInvalidBatch
 	}
-	s.sizeBatch = 0
-	s.batch = NewBatch()
-	s.mutBatch.Unlock()
 
 	ch := make(chan error)
 	req := &putBatchAct{
@@ -261,8 +260,13 @@ func (s *SerialDB) putBatch() error {
 	}
 	result := <-ch
 	close(ch)
+	if result != nil {
+		return result
+	}
 
-	return result
+	s.sizeBatch = 0
+	s.batch = NewBatch()
+	return nil
 }
 
 func (s *SerialDB) isClosed() bool {
